@@ -23,13 +23,15 @@ META = {
             'Entries rejected for size or for a link target outside the root are treated as absent from the tar by model and specification alike.',
 }
 THEOREMS = ['Scalibr.Overlay.C04_view_partial', 'Scalibr.Overlay.C04_loader_views', 'Scalibr.Overlay.C04_loader_partial',
-            'Scalibr.Overlay.C04_view_nowhiteout', 'Scalibr.Overlay.C04_readdir', 'Scalibr.Overlay.C04_walk',
-            'Scalibr.Overlay.C04_required_files', 'Scalibr.Overlay.C04_required_subset',
+            'Scalibr.Overlay.C04_image_partial', 'Scalibr.Overlay.loadImage_chains',
+            'Scalibr.Overlay.C04_view_nowhiteout_partial', 'Scalibr.Overlay.C04_readdir_partial', 'Scalibr.Overlay.C04_walk_partial',
+            'Scalibr.Overlay.C04_required_files_partial', 'Scalibr.Overlay.C04_required_subset', 'Scalibr.Overlay.C04_required_fails_dirs',
             'Scalibr.Overlay.C04_view_fails_recreate', 'Scalibr.Overlay.C04_view_fails_opaque', 'Scalibr.Overlay.C04_view_fails_dropped_entry',
             'Scalibr.Overlay.C04_view_fails_dropped_entry_mode', 'Scalibr.Overlay.C04_view_fails_wh_recreate', 'Scalibr.Overlay.C04_view_fails_implicit_dir',
             'Scalibr.Overlay.C04_witness_classes', 'Scalibr.Overlay.view_gen', 'Scalibr.Overlay.revLayer_apply', 'Scalibr.Overlay.loadCore_eq_viewOf',
             'Scalibr.Overlay.C10_layer_bytes', 'Scalibr.Overlay.C10_layer_bytes_loader', 'Scalibr.Overlay.C10_layer_bytes_final',
-            'Scalibr.Overlay.C10_layer_bytes_boundary', 'Scalibr.Overlay.C10_disk_bytes']
+            'Scalibr.Overlay.C10_layer_bytes_boundary', 'Scalibr.Overlay.C10_disk_bytes', 'Scalibr.Overlay.C10_disk_bytes_load',
+            'Scalibr.Overlay.C10_layer_bytes_image']
 
 # clause of H -> key in known_findings.txt (clauses named ill-* are ill-formed tars: no claim either way)
 CLASS_KEY = {
@@ -46,7 +48,7 @@ def _items(view):
     return [] if view in ('-', '') else view.split(',')
 
 
-def _strip_content(items):
+def _strip_content_unused(items):
     out = []
     for it in items:
         f = it.split(':')
@@ -57,39 +59,32 @@ def _strip_content(items):
 
 
 def _view_diff(j, nv, req, iw, il, sw, sl):
-    """None when the implementation's view j agrees with the specification's, else a short description."""
+    """(None, None) when the implementation's view j agrees with the specification's, else (description, kind):
+    kind 'pruned-dirs'   = under a requirer the final view only lacks directories the specification keeps,
+    kind 'backing-files' = under a requirer a file of a non-final view is listed but its content cannot be read,
+    kind None            = any other difference"""
     iw, il, sw, sl = _items(iw), _items(il), _items(sw), _items(sl)
+    if iw == sw and il == sl:
+        return None, None
     if req != 'A':
-        # non-required files lose their backing file: content of files in non-final views is unspecified (DESIGN §5 C04 (6))
-        iw, il, sw, sl = map(_strip_content, (iw, il, sw, sl))
-    if req == 'A' or j + 1 < nv:
-        if iw != sw:
-            d = sorted(set(iw) ^ set(sw))
-            return 'walk differs: ' + ','.join(d[:4])
-        if il != sl:
-            k = next(i for i, (a, b) in enumerate(zip(il, sl)) if a != b) if len(il) == len(sl) else -1
-            return 'lookup #%d differs: %s vs %s' % (k, il[k] if k >= 0 else len(il), sl[k] if k >= 0 else len(sl))
-        return None
-    # final view under a requirer: files and symlinks exactly the needed ones; directories may vanish when emptied, none is invented
-    inon = [x for x in iw if x.split(':')[1] != 'd']
-    snon = [x for x in sw if x.split(':')[1] != 'd']
-    if inon != snon:
-        return 'required files differ: ' + ','.join(sorted(set(inon) ^ set(snon))[:4])
-    idir = set(x for x in iw if x.split(':')[1] == 'd')
-    sdir = set(x for x in sw if x.split(':')[1] == 'd')
-    if not idir <= sdir:
-        return 'directory not in the overlay: ' + ','.join(sorted(idir - sdir)[:4])
-    have = set(x.split(':')[0] for x in iw)
-    for x in inon:
-        p = binascii.unhexlify(x.split(':')[0]).decode('latin1')
-        while '/' in p:
-            p = p.rsplit('/', 1)[0]
-            if binascii.hexlify(p.encode('latin1')).decode() not in have:
-                return 'ancestor %s of a kept file is missing from the walk' % p
-    for a, b in zip(il, sl):
-        if a != b and not (a == '-' and b.split(':')[0] == 'd'):
-            return 'lookup differs: %s vs %s' % (a, b)
-    return None
+        if j + 1 == nv:
+            missing = set(sw) - set(iw)
+            extra = set(iw) - set(sw)
+            look_ok = len(il) == len(sl) and all(a == b or (a == '-' and b.split(':')[0] == 'd') for a, b in zip(il, sl))
+            if not extra and look_ok and all(x.split(':')[1] == 'd' for x in missing):
+                return 'directories emptied by the removal of non-required files are gone: ' + ','.join(sorted(missing)[:4]), 'pruned-dirs'
+        else:
+            def same_but_unreadable(a, b):
+                fa, fb = a.split(':'), b.split(':')
+                return a == b or (len(fa) == len(fb) and fa[:-1] == fb[:-1] and fa[-4] == 'f' and fa[-1] == 'readerr')
+            if len(iw) == len(sw) and len(il) == len(sl) and all(same_but_unreadable(a, b) for a, b in zip(iw + il, sw + sl)):
+                bad = [a for a, b in zip(iw, sw) if a != b]
+                return 'files listed in a non-final view cannot be read (backing file deleted): ' + ','.join(bad[:4]), 'backing-files'
+    if iw != sw:
+        d = sorted(set(iw) ^ set(sw))
+        return 'walk differs: ' + ','.join(d[:4]), None
+    k = next(i for i, (a, b) in enumerate(zip(il, sl)) if a != b) if len(il) == len(sl) else -1
+    return 'lookup #%d differs: %s vs %s' % (k, il[k] if k >= 0 else len(il), sl[k] if k >= 0 else len(sl)), None
 
 
 _memo = {}
@@ -130,9 +125,13 @@ def _judge1(case, fi, fm):
     if not (len(iw) == len(il) == len(sw) == len(sl) == len(wf) == len(cls) == nv):
         return None, None          # shape mismatch: the correspondence comparison reports it
     for j in range(nv):
-        d = _view_diff(j, nv, req, iw[j], il[j], sw[j], sl[j])
+        d, kind = _view_diff(j, nv, req, iw[j], il[j], sw[j], sl[j])
         if d is None:
             continue
+        if kind == 'pruned-dirs':
+            return 'final view under a requirer: ' + d, 'C04/requirer-prunes-emptied-directories'
+        if kind == 'backing-files':
+            return 'view %d under a requirer: %s' % (j, d), 'C04/requirer-deletes-backing-files'
         if wf[j] == '1':
             return 'view %d is not the OCI overlay of layers 0..%d although H holds: %s' % (j, j, d), None
         failing = [c for c in cls[j].split(',') if c != '-']
